@@ -79,6 +79,14 @@ fn main() {
                 }
                 None => eng::mem_ctx(&tables),
             };
+            if std::env::var("SEQ").is_ok() {
+                // several statements (separated by ;;) on ONE context: row counts and pool usage after each
+                for one in sql.split(";;") {
+                    let o = eng::run_sql(&ctx, one.trim());
+                    println!("{:<60} -> {}   [pool used {} of {:?}]", one.trim().chars().take(60).collect::<String>(), o.short().chars().take(90).collect::<String>(), ctx.memory_used(), ctx.memory_available());
+                }
+                return;
+            }
             let dfc = eng::df_ctx(&tables);
             println!("engine   : {}", sql);
             match eng::run_sql(&ctx, &sql) {
